@@ -185,6 +185,20 @@ int cmd_table(int argc, char** argv) {
                     if (!slots[bi].rd) v = "notread";
                     else { uint64_t rb = 0; CdnsBlockRead cp(*slots[bi].rd); v = block2j(cp, true, false, rb); }
                 }
+                else if (o == "read_some") {
+                    // the application has already consumed part of this block through the generic read calls
+                    if (!slots[bi].rd) v = "notread";
+                    else {
+                        bool end = false;
+                        long nq = op.value("n", 1L), got = 0;
+                        for (long k = 0; k < nq && !end; k++) { slots[bi].rd->read_generic_qr(end); if (!end) got++; }
+                        end = false;
+                        for (long k = 0; k < nq && !end; k++) { slots[bi].rd->read_generic_aec(end); if (!end) got++; }
+                        end = false;
+                        for (long k = 0; k < nq && !end; k++) { slots[bi].rd->read_generic_mm(end); if (!end) got++; }
+                        v = got;
+                    }
+                }
                 else if (o == "dump_inplace") {
                     if (!slots[bi].rd) v = "notread";
                     else { uint64_t rb = 0; v = block2j(*slots[bi].rd, true, false, rb); }
